@@ -318,6 +318,11 @@ func (x *Exec) returnAsserts(fr *Frame, st *State, ret *ssa.Return) {
 			}
 			o := x.vc.oblige("callsite."+tag, Implies(And(st.Reach, failure), g), x.posOf(fr.fn, ret.Pos()), fmt.Sprintf("at a failing return: %s", cs.Clause.Src))
 			o.Clause = cs.Clause.Src
+			if cs.Callee != "failure" && !cs.IsGuard {
+				// "failure#k" names one return statement: it must be able to report a failure
+				x.vc.obls = append(x.vc.obls, &Obl{Name: strings.Replace(o.Name, "#callsite.", "#cover.callsite.", 1), Kind: "cover", Goal: Not(And(st.Reach, failure)), N: len(x.vc.items),
+					Desc: "the return statement " + cs.Callee + " carrying assertion " + tag + " can report a failure (otherwise the assertion is vacuous there)", Fn: x.vc.fnName, VC: x.vc, Expect: "sat", Pos: x.posOf(fr.fn, ret.Pos())})
+			}
 			continue
 		}
 		if success == TFalse {
@@ -355,6 +360,12 @@ func (x *Exec) returnAsserts(fr *Frame, st *State, ret *ssa.Return) {
 		}
 		o := x.vc.oblige("callsite."+tag, Implies(And(st.Reach, success), g), x.posOf(fr.fn, ret.Pos()), fmt.Sprintf("at a successful return: %s", cs.Clause.Src))
 		o.Clause = cs.Clause.Src
+		if cs.Callee != "return" && !cs.IsGuard {
+			// "return#k" names ONE return statement by its ordinal; if an edit shifts the ordinals onto a return
+			// that can only fail, the clause would pass vacuously - so that return must be able to succeed
+			x.vc.obls = append(x.vc.obls, &Obl{Name: strings.Replace(o.Name, "#callsite.", "#cover.callsite.", 1), Kind: "cover", Goal: Not(And(st.Reach, success)), N: len(x.vc.items),
+				Desc: "the return statement " + cs.Callee + " carrying assertion " + tag + " can report success (otherwise the assertion is vacuous there)", Fn: x.vc.fnName, VC: x.vc, Expect: "sat", Pos: x.posOf(fr.fn, ret.Pos())})
+		}
 	}
 }
 
